@@ -279,6 +279,39 @@ let macro_main file =
       | MOk ts -> List.iter (fun t -> Printf.printf "%d %s\n" (if t.m_sp then 1 else 0) (hex_of_bytes t.m_txt)) ts
       | MErr -> print_endline "ERR" | MFuel -> print_endline "FUEL" | MUnsup -> print_endline "UNSUP"))
 
+(* cond: stdin lines of items I1 I0 E1 E0 L N T<k>; prints the selected payloads or ERR (C10) *)
+let cond_main () =
+  (try while true do
+    let line = input_line stdin in
+    let items = List.filter (fun x -> x <> "") (String.split_on_char ' ' (String.trim line)) in
+    let ls = List.map (fun it ->
+      match it with
+      | "I1" -> If true | "I0" -> If false | "E1" -> Elif true | "E0" -> Elif false
+      | "L" -> Else | "N" -> Endif
+      | _ -> Text0 (int_of_string (String.sub it 1 (String.length it - 1)))) items in
+    (match run ls with
+     | None -> print_endline "ERR"
+     | Some ps -> print_endline (String.concat " " (List.map string_of_int ps)))
+  done with End_of_file -> ())
+
+(* inc: stdin lines "<dq> <cur> <paths comma list> <exists bits, one per directory>" or
+   "next <idx> <paths> <bits>"; prints the directory chosen or -1 (C10) *)
+let inc_main () =
+  let rec nat_of i = if i = 0 then O else S (nat_of (i - 1)) in
+  (try while true do
+    let line = input_line stdin in
+    (match String.split_on_char ' ' (String.trim line) with
+     | ["next"; idx; paths; bits] ->
+       let ps = if paths = "" || paths = "-" then [] else List.map int_of_string (String.split_on_char ',' paths) in
+       let ex d () = bits.[d] = '1' in
+       (match resolve_next ex (nat_of (int_of_string idx)) ps () with Some d -> (print_endline (string_of_int d); flush stdout) | None -> (print_endline "-1"; flush stdout))
+     | [dq; cur; paths; bits] ->
+       let ps = if paths = "" || paths = "-" then [] else List.map int_of_string (String.split_on_char ',' paths) in
+       let ex d () = bits.[d] = '1' in
+       (match resolve ex (dq = "1") (int_of_string cur) ps () with Some d -> (print_endline (string_of_int d); flush stdout) | None -> (print_endline "-1"; flush stdout))
+     | _ -> (print_endline "?"; flush stdout))
+  done with End_of_file -> ())
+
 (* the punctuator pairs that fuse when printed adjacent (from the proved sweep) *)
 let fusing_main () =
   List.iter (fun (a, b) -> Printf.printf "%s %s\n" (hex_of_bytes a) (hex_of_bytes b)) fusing_pairs
@@ -336,6 +369,8 @@ let () =
   | [_; "lex"; f] -> lex_main f
   | [_; "lines"; f] -> lines_main f
   | [_; "macro"; f] -> macro_main f
+  | [_; "cond"] -> cond_main ()
+  | [_; "inc"] -> inc_main ()
   | [_; "fusing"] -> fusing_main ()
   | [_; "layout"] -> layout_main ()
   | [_; "declspec-spec"] -> declspec_main ()
